@@ -409,6 +409,62 @@ def check_ops(run, r, g, tier):
                 else:
                     eqs.append(('beta_norm', red2, res))
             run.stat('open-arg-own-binder')
+        # ---- redexes whose contraction creates new redexes (a function-typed bound variable applied inside the body, the argument an
+        #      abstraction), nested once more half of the time; the term and a freshly built equal copy are normalised one after
+        #      the other: the results must be equal terms (the normal form depends on the term only, not on what was normalised,
+        #      allocated or freed before)
+        def ho_redex():
+            V = BoolType if r.random() < 0.5 else U
+            fv, gv2, kv = Var('f', TFun(V, V)), Var('g', TFun(V, V, V)), Var('k', TFun(V, V, V))
+            av, bv = Var('a', V), Var('b', V)
+
+            def arg_abs():
+                c_ = r.randrange(4)
+                if c_ == 0:
+                    return Abs('y', V, Comb(fv, Bound(0)))
+                if c_ == 1:
+                    return Abs('y', V, Comb(Comb(gv2, Bound(0)), Bound(0)))
+                if c_ == 2:
+                    return Abs('y', V, Comb(Abs('z', V, Comb(fv, Bound(0))), Bound(0)))       # a redex inside the argument
+                return Abs('y', V, Bound(0))
+
+            def use(h, d):
+                c_ = r.randrange(5)
+                if d <= 0 or c_ == 0:
+                    return Comb(h, r.choice([av, bv]))
+                if c_ == 1:
+                    return Comb(h, use(h, d - 1))
+                if c_ == 2:
+                    return Comb(Comb(kv, use(h, d - 1)), use(h, d - 1))
+                if c_ == 3:
+                    return Comb(fv, use(h, d - 1))
+                return Comb(Comb(gv2, Comb(h, av)), use(h, d - 1))
+            body = use(Bound(0), r.choice([1, 2, 3]))
+            t_ = Comb(Abs('h', TFun(V, V), body), arg_abs())
+            if r.random() < 0.5:
+                # the whole thing as the argument of another higher-order redex
+                t_ = Comb(Abs('w', V, Comb(Comb(kv, Bound(0)), Comb(fv, Bound(0)))), t_)
+            return t_
+        if i % 2 == 0:
+            hr = ho_redex()
+            hr2 = copy.deepcopy(hr)
+            n1, e1_ = attempt(lambda: hr.beta_norm())
+            junk = [ho_redex().beta_norm() for _j in range(2)]      # allocation / freeing in between
+            del junk
+            n2, e2_ = attempt(lambda: hr2.beta_norm())
+            add('case_beta_norm %s %s' % (g_tm(hr), g_opt(n1, g_tm)), 'beta_norm', (repr(hr),), n1, e1_)
+            add('case_beta_norm %s %s' % (g_tm(hr2), g_opt(n2, g_tm)), 'beta_norm', (repr(hr2),), n2, e2_)
+            if n1 is not None and n2 is not None:
+                if not ref_eq(n1, n2):
+                    run.violation('property', 'beta_norm of two equal terms gives different results (%s vs %s): the result depends on what was normalised before'
+                                  % (sstr(n1), sstr(n2)), dict(term=repr(hr), first=repr(n1), second=repr(n2)), key='C03:beta_norm-history')
+                for n_ in (n1, n2):
+                    if typ_of(hr) is not None and typ_of(n_) != typ_of(hr):
+                        run.violation('property', 'beta_norm does not preserve the type (higher-order redex)', dict(term=repr(hr), result=repr(n_)),
+                                      key='C03:beta_norm-typing')
+                    elif typ_of(hr) is not None:
+                        eqs.append(('beta_norm', hr, n_))
+            run.stat('ho-redex')
         # ---- incr_boundvars
         inc = r.choice([0, 1, 2, 3])
         for inp in (open_t, share(open_t)):
@@ -525,6 +581,7 @@ def check_ops(run, r, g, tier):
                               dict(correspondence='C03/' + descr, input=inp, impl_result=repr(impl) if isinstance(impl, Term) else sstr(impl), impl_error=err),
                               failing_input=False)
     run.cov['correspondence_ops'] = dict(cases=len(exprs), disagree=dis, per_operation=stats)
+    run.cov['search_two_redexes'] = two_redex_family(run, r, 2500 if tier == 'quick' else 30000, eqs)
 
     # ---- denotation of the equations, in all small models
     seen, fexprs, fmeta = set(), [], []
@@ -559,6 +616,88 @@ def check_ops(run, r, g, tier):
             n_skip += 1
         run.count(('denot', kind, g_tm(lhs)), nontrivial=(code == 1))
     run.cov['search_denotation'] = dict(equations=len(fexprs), evaluated=n_eval, skipped=n_skip, shards_timed_out=len(failed))
+
+
+def _ref_lift(t, inc, lev=0):
+    if t.is_comb():
+        return Comb(_ref_lift(t.fun, inc, lev), _ref_lift(t.arg, inc, lev))
+    if t.is_abs():
+        return Abs(t.var_name, t.var_T, _ref_lift(t.body, inc, lev + 1))
+    if t.is_bound():
+        return Bound(t.n + inc) if t.n >= lev else t
+    return t
+
+
+def _ref_sub0(body, s_, n=0):
+    if body.is_comb():
+        return Comb(_ref_sub0(body.fun, s_, n), _ref_sub0(body.arg, s_, n))
+    if body.is_abs():
+        return Abs(body.var_name, body.var_T, _ref_sub0(body.body, s_, n + 1))
+    if body.is_bound():
+        if body.n == n:
+            return _ref_lift(s_, n)
+        return Bound(body.n - 1) if body.n > n else body
+    return body
+
+
+def ref_beta_norm(t, fuel=3000):
+    """Textbook beta normalisation on de Bruijn terms (no cache, no identity shortcut, own substitution)."""
+    if fuel <= 0:
+        raise RecursionError
+    if t.is_comb():
+        f = ref_beta_norm(t.fun, fuel - 1)
+        x = ref_beta_norm(t.arg, fuel - 1)
+        if f.is_abs():
+            return ref_beta_norm(_ref_sub0(f.body, x), fuel - 1)
+        return Comb(f, x)
+    if t.is_abs():
+        return Abs(t.var_name, t.var_T, ref_beta_norm(t.body, fuel - 1))
+    return t
+
+
+def two_redex_family(run, r, n, eqs):
+    """Terms with two independent higher-order redexes (%h. .. h e ..) (%y. body) in one context: contracting one creates new
+    redexes and temporaries while the other is still to be done.  beta_norm against the textbook reference; a difference is
+    then judged by typing and (through eqs) by denotation in finite models."""
+    nat = TConst('nat')
+    hT = TFun(nat, nat)
+    f2, gg = Var('f', TFun(nat, nat, nat)), Var('g', hT)
+    a_, b_, c_ = [Var(nm, nat) for nm in 'abc']
+    h = lambda e: Comb(Bound(0), e)
+
+    def bodies(x):
+        return [h(x), Comb(gg, h(x)), h(h(x)), f2(h(x), x), f2(h(x), h(x)), f2(x, h(x)), h(Comb(gg, x)), f2(h(h(x)), h(x))]
+
+    def lams():
+        y = Bound(0)
+        return [Abs('y', nat, e) for e in [y, gg(y), gg(gg(y)), f2(y, y), f2(c_, y), c_, Comb(Abs('z', nat, gg(Bound(0))), y)]]
+    ctxs = [lambda r1, r2: f2(r1, r2), lambda r1, r2: gg(f2(r1, r2)), lambda r1, r2: f2(gg(r1), r2), lambda r1, r2: f2(r1, gg(r2)),
+            lambda r1, r2: f2(f2(r1, r2), r1)]
+    bad = 0
+    for _ in range(n):
+        r1 = Comb(Abs('h', hT, r.choice(bodies(a_))), r.choice(lams()))
+        r2 = Comb(Abs('h', hT, r.choice(bodies(b_))), r.choice(lams()))
+        t = r.choice(ctxs)(r1, r2)
+        try:
+            want = ref_beta_norm(t)
+            got = t.beta_norm()
+        except RecursionError:
+            raise
+        except Exception as e:
+            run.stat('two_redex_exc:' + type(e).__name__)
+            continue
+        run.count(('two-redex', g_tm(t)), nontrivial=True)
+        if ref_eq(got, want):
+            continue
+        bad += 1
+        if typ_of(got) != nat:
+            run.violation('property', 'beta_norm of a well-typed term of type nat returns %s, which is not of type nat (the textbook normal form is %s)'
+                          % (sstr(got), sstr(want)), dict(term=repr(t), result=repr(got), reference=repr(want)), key='C03:beta_norm-typing')
+        else:
+            eqs.append(('beta_norm', t, got))
+            run.violation('correspondence', 'correspondence:C03/beta_norm-reference: beta_norm gives %s, textbook normalisation %s' % (sstr(got), sstr(want)),
+                          dict(correspondence='C03/beta_norm-reference', term=repr(t), result=repr(got), reference=repr(want)), failing_input=False)
+    return dict(terms=n, differ=bad)
 
 
 def Inst_copy(inst):
